@@ -37,6 +37,32 @@ func properties() map[string]*PropertySpec {
 			c01("H_C01_unsupported", "unsupported checked", "application tags 0..30 other than the seven supported, primitive with arbitrary content or constructed with <= 3 arbitrary children", ""),
 			c01("H_C01_bindversion", "version checked", "every int64 version other than 3", ""),
 		}})
+	nat := func(name, reach, bound, tiers string) HarnessSpec {
+		return HarnessSpec{Name: name, Native: true, Reach: []string{reach}, Bound: bound, Tiers: tiers}
+	}
+	add(&PropertySpec{ID: "C04",
+		Functions: "(*Request).{NewResponse,NewBindResponse,NewSearchDoneResponse,NewSearchResponseEntry,NewExtendedResponse,NewModifyResponse}, baseResponse setters, SetControls, AddAttribute, (*…Response).packet, beginResponse, addOptionalResponseChildren, encodeControls, (*Control…).Encode, (*ResponseWriter).Write; asn1-ber encode side from real SSA: Encode, NewString, NewInteger, NewBoolean, AppendChild, Bytes, encodeIdentifier, encodeLength, encodeUnsignedInteger, encodeInteger, int64Length, ParseInt64",
+		Outside:   []string{"WithAttributes(map) with >= 2 keys (map iteration order is undefined); only AddAttribute order is asserted", "strings in the structural harnesses are < 24 bytes (every nested length in the one-octet class); the length encoder itself is discharged for every length < 2^31 by lemma L-len and integers for every int64 by lemma L-int, both on the real asn1-ber SSA", "TRUE is compared as the octet 0x01 that asn1-ber writes (any non-zero octet is TRUE in BER)", "result codes 0..32767, application codes 0..30, message IDs 0..2^31-1"},
+		Harnesses: []HarnessSpec{
+			nat("H_C04_general", "written", "every subset of 4 options, <= 2 setters in any order", ""),
+			nat("H_C04_bind", "written", "WithResponseCode or not, <= 1 setter, <= 1 control of each of 12 kinds", ""),
+			nat("H_C04_searchdone", "written", "WithResponseCode or not, <= 1 setter, <= 1 control of each of 12 kinds", ""),
+			nat("H_C04_extended", "written", "WithResponseCode or not, <= 2 setters", ""),
+			nat("H_C04_modify", "written", "every subset of 3 options, <= 2 setters", ""),
+			nat("H_C04_entry", "written", "<= 2 attributes x <= 2 values in the order added", ""),
+			nat("H_C04_lemma_int", "lemma", "every int64", ""),
+			nat("H_C04_lemma_len", "lemma", "every string shorter than 2^31 bytes", ""),
+		}})
+	add(&PropertySpec{ID: "C14",
+		Functions: "(*ControlString|ManageDsaIT|Paging|BeheraPasswordPolicy|VChuPasswordMustChange|VChuPasswordWarning|Microsoft*).Encode, encodeControls, decodeControl, NewControl* constructors, control options; asn1-ber encode side from real SSA",
+		Outside:   []string{"the independent client is a reference encoding of the layout go-ldap's DecodeControl expects (RFC 2696, Behera and VChu drafts), not go-ldap's code itself", "strings below 2^26 bytes in the single-control harnesses, below 24 bytes when two controls are combined", "MustChange=false; decimal rendering/parsing of the VChu expiry is strconv's (FormatInt/ParseInt inverse assumed)", "grace / expire 0..2^31-1"},
+		Harnesses: []HarnessSpec{
+			nat("H_C14_encode", "encoded", "12 control kinds, all field values, all five BER length classes", ""),
+			nat("H_C14_roundtrip", "roundtrip", "gldap encode -> wire -> gldap decode, 12 kinds", ""),
+			nat("H_C14_order", "order", "every ordered pair of kinds on one message", ""),
+			nat("H_C14_behera_ctor", "ctor", "every subset of {grace, expire, error}; error over all uint values", ""),
+			nat("H_C01_delete2", "delete ok", "request direction: reference client encoding of every ordered pair of kinds decoded by the real decoder", ""),
+		}})
 	add(&PropertySpec{ID: "C02",
 		Functions: "(*conn).readRequest, (*conn).readPacket, newRequest, newMessage, (*packet).{basicValidation,requestPacket,requestType,requestMessageID,simpleBindParameters,searchParmeters,modifyParameters,addParameters,deleteParameters,extendedOperationName,controlPacket,assert,assertApplicationRequest}, decodeControl, decodeAttribute, NewControl*",
 		Outside:   []string{"byte-level framing (length octets, truncation, EOC, oversize): the asn1-ber reader's error outcome by contract (DESIGN §5.1)", "panics inside asn1-ber's reader and go-ldap's DecompileFilter (it recovers)", "universal REAL and GeneralizedTime payloads (opaque values)", "trees deeper than 5 below the envelope or wider than the stated widths"},
